@@ -197,9 +197,10 @@ def exOps : List Op := [
 
 example : calcBlocks 4 exSecs = some exBlocks := by decide
 example : admissibleRun (init exBlocks false (List.replicate 10 0)) exOps = true := by decide
--- (block 7 arrived unrequested and was later moved to `pending` by `RequestBlocks` without a request: it stays there)
+-- (block 7 arrived unrequested; the repaired `RequestBlocks` drops it from `remaining` without entering it into
+-- `pending` — before the fix for C10-F3 it stayed in `pending` for ever, see `Props/C10PD`)
 example : (run (init exBlocks false (List.replicate 10 0)) exOps).map (fun s => (s.buf, isDone s, s.pending)) =
-    some ([1, 2, 3, 4, 5, 0, 0, 7, 8, 9], true, [7]) := by decide
+    some ([1, 2, 3, 4, 5, 0, 0, 7, 8, 9], true, []) := by decide
 example : assembled 10 exBlocks exOps = [1, 2, 3, 4, 5, 0, 0, 7, 8, 9] := by decide
 example : maxQ exOps = 5 := by decide
 
